@@ -324,7 +324,7 @@ class C10(Prop):
     id = 'C10'
     props_file = 'Props/C10.v'
     imports = ['Model.Poller', 'Model.PollerObs']
-    quick_n = 220
+    quick_n = 180
     thorough_n = 1800
     rule = ('histories of open/close (number space of 3, reuse preferred), add/remove reader and writer, discard, peer '
             'write / drain / fill send buffer / unfill / peer close, and zero-timeout iterations over real socketpairs, '
